@@ -159,10 +159,7 @@ Definition dBindLaw : dec (bind_case * list (positive * list positive)) :=
    per context (task, node, on the node's ledger before the batch, after the batch): a context stays
    on the ledger exactly when neither failure names it (BindLemmas.flow_batch_keeps_bound; a context
    named by a failure is taken off by EvUnbind) *)
-Definition law_batch (x : list positive * list positive * list (positive * positive * bool * bool)) : bool :=
-  let '(pf, bf, cs) := x in
-  forallb (fun c => let '(t, _, before, after) := c in
-             Bool.eqb after (before && negb (bool_decide (t ∈ pf)) && negb (bool_decide (t ∈ bf)))) cs.
+(* law_batch: BindLemmas.law_batch (sound of the model's batch: law_batch_sound) *)
 Definition dBatchLaw : dec (list (list positive * list positive * list (positive * positive * bool * bool))) :=
   dListC (let* pf := dListC dPos in let* bf := dListC dPos in
           let* cs := dListC (let* t := dPos in let* n := dPos in let* x := dBool in let* y := dBool in ret (t, n, x, y)) in
